@@ -8,6 +8,8 @@ import GuppyVerif.Lemmas.C12LinCompl
 import GuppyVerif.Lemmas.C12Call
 import GuppyVerif.Lemmas.C12CallIff
 import GuppyVerif.Lemmas.C12Fuel
+import GuppyVerif.Lemmas.C12GenCall
+import GuppyVerif.Lemmas.C12GenCallCompl
 /-! # C12 — type inference finds an instantiation exactly when one exists
 
 Property theorems about `Model/Unify.lean` (the model of `unify`, `_unify_var`, `_occurs`, `_unify_args`,
@@ -331,6 +333,132 @@ example : NoLinear {} ∧
       (.node (.func [0, 0] 1) [.targ (.atom (.bvar 0)), .targ (.atom (.bvar 0)), .targ (.atom (.bvar 0))])
       = .ok [.atom (.num 2)] [] :=
   ⟨noLinear_default, rfl, rfl, by simp, by simp [instBList, instB, Tm.vars, varsList], rfl⟩
+
+/-! ### generic CALLS: `synthesize_call` / `check_call` on first-order arguments (Model/GenCall.lean)
+
+Fragment: the declared signature has no inference variables; every argument expression is `Ex.Closed` — its
+synthesised type (variables, literals, monomorphic function names, previously checked nested calls: `Ex.val`;
+tuple literals: `Ex.tup`) has no inference variables; no numeric coercions, no `@comptime`/`inout` inputs. -/
+
+/-- **Generic call, soundness (synthesis position).**  If `synthesize_call` accepts, the returned instantiation
+    `ins` has one variable-free entry per parameter, respects the copy/drop bounds (`check_inst`), makes every
+    declared input type identical (up to flags) to the synthesised type of the corresponding argument — tuple
+    literals included, whatever order the components were solved in — and the returned type is the declared
+    return type under that same instantiation. -/
+theorem generic_call_synth_sound (E : Env) (sg : Sig) (fresh : List V) (es : List Ex) (ins : List Tm) (ret : Tm)
+    (hin : ∀ a ∈ sg.inputs, a.vars = []) (hout : sg.out.vars = []) (hes : ∀ e ∈ es, e.Closed)
+    (h : synthCall E sg fresh es = .accept ins ret) :
+    es.length = sg.inputs.length ∧ CallOk E sg fresh es ins ret := by
+  unfold synthCall at h
+  split at h
+  · cases h
+  · rename_i hl
+    exact ⟨by simpa using hl, (finishCall_sound E sg fresh es [] ins ret hin hout hes
+      (fun _ _ h' => by simp [lookup] at h') h).1⟩
+
+/-- **Generic call, soundness (checking position, closed expected type `ty`)**: as above, and the expected type
+    is identical (up to flags) to the instantiated return type — also when the instantiation could only be found
+    from the expected type (return-only type variables). -/
+theorem generic_call_check_sound (E : Env) (sg : Sig) (fresh fresh₂ : List V) (es : List Ex) (ty : Tm)
+    (ins : List Tm) (ret : Tm) (hlen : fresh₂.length = fresh.length)
+    (hin : ∀ a ∈ sg.inputs, a.vars = []) (hout : sg.out.vars = []) (hes : ∀ e ∈ es, e.Closed) (hty : ty.vars = [])
+    (h : checkCall E sg fresh fresh₂ es ty = .accept ins ret) :
+    es.length = sg.inputs.length ∧ ins.length = fresh.length ∧ (∀ t ∈ ins, t.vars = []) ∧
+      boundsOk E sg.bounds ins = true ∧ All2 (fun e p => FlagEq (instB ins p) e.synth) es sg.inputs ∧
+      ret = instB ins sg.out ∧ FlagEq ty ret := by
+  unfold checkCall at h
+  split at h
+  · cases h
+  · rename_i hl
+    have hnil : ClosedImgs [] := fun _ _ h' => by simp [lookup] at h'
+    cases h1 : finishCall E sg fresh es [] with
+    | accept ins₁ ret₁ =>
+      simp only [h1] at h
+      cases hu : unifyT E ty ret₁ [] with
+      | ok s =>
+        simp only [hu, CallOut.accept.injEq] at h
+        obtain ⟨rfl, rfl⟩ := h
+        obtain ⟨ok, _⟩ := finishCall_sound E sg fresh es [] ins₁ ret₁ hin hout hes hnil h1
+        have hrc : ret₁.vars = [] := by rw [ok.ret]; exact vars_instB_closed ins₁ ok.closed _ hout
+        have ck := unifyT_sound E hrc hu
+        have := ck.eq
+        rw [apply_closed_term s hty] at this
+        exact ⟨by simpa using hl, ok.len, ok.closed, ok.bounds, ok.fits, ok.ret, this⟩
+      | fail => simp [hu] at h
+      | oof => simp [hu] at h
+    | infer =>
+      simp only [h1] at h
+      cases hu : unifyT E ty (instB (fresh₂.map Tm.var) sg.out) [] with
+      | ok σ₀ =>
+        simp only [hu] at h
+        have h0 : ClosedImgs σ₀ := unify_closed2 E _ _ _ [] σ₀ hu hty hnil
+        obtain ⟨ok, σ, hσc, hext, hret⟩ := finishCall_sound E sg fresh₂ es σ₀ ins ret hin hout hes h0 h
+        have g := unify_good E _ _ _ [] σ₀ hu
+        have hsol : Solves (asFun σ) σ₀ := (asFun_solves_closed hσc).of_extends hext
+        have := g.eq (asFun σ) hsol
+        have e1 : inst (asFun σ) ty = ty := inst_id_of ty _ (fun y hy => by rw [hty] at hy; cases hy)
+        rw [e1] at this
+        exact ⟨by simpa using hl, by rw [ok.len, hlen], ok.closed, ok.bounds, ok.fits, ok.ret, by rw [hret]; exact this⟩
+      | fail => simp [hu] at h
+      | oof => simp [hu] at h
+    | oof => simp [h1] at h
+    | arity => simp [h1] at h
+    | mismatch => simp [h1] at h
+    | bounds => simp [h1] at h
+
+/-- **Generic call, exactly when** (synthesis position; arguments with synthesised closed types).
+    `synthesize_call` accepts ⇔ some instantiation `ρ` of the quantified parameters, respecting their copy/drop
+    bounds, makes every declared input type identical (up to flags) to the type of the corresponding argument;
+    and the instantiation it returns is that `ρ` (up to flags) with the return type instantiated by it.
+    Partial: proved for arguments of the form `Ex.val` (tuple *literals* are covered by `generic_call_synth_sound`
+    only — the converse for literals is left to the program-level tie), for well-sorted closed inputs, every
+    parameter occurring in some input (no return-only type variables), and where the ownership-flag rule cannot
+    fire (`NoLinear E`); no numeric coercions in the model. -/
+theorem generic_call_iff_partial (E : Env) (hE : NoLinear E) (sg : Sig) (fresh : List V) (as : List Tm)
+    (hin : ∀ p ∈ sg.inputs, p.vars = [] ∧ p.wf = true) (hout : sg.out.vars = [])
+    (has : ∀ a ∈ as, a.wf = true ∧ a.vars = []) (hfresh : fresh.Nodup)
+    (hocc : ∀ f ∈ fresh, ∃ p ∈ sg.inputs, f ∈ (instB (fresh.map Tm.var) p).vars) :
+    ((∃ ins ret, synthCall E sg fresh (as.map Ex.val) = .accept ins ret) ↔
+      ∃ ρ : List Tm, ρ.length = fresh.length ∧ boundsOk E sg.bounds ρ = true ∧
+        All2 (fun a p => FlagEq (instB ρ p) a) as sg.inputs) ∧
+    (∀ ρ : List Tm, ρ.length = fresh.length → boundsOk E sg.bounds ρ = true →
+        All2 (fun a p => FlagEq (instB ρ p) a) as sg.inputs →
+        ∃ ins, synthCall E sg fresh (as.map Ex.val) = .accept ins (instB ins sg.out) ∧ All2 FlagEq ins ρ) := by
+  have hcl : ∀ e ∈ as.map Ex.val, e.Closed := by
+    intro e he; obtain ⟨a, ha, rfl⟩ := List.mem_map.mp he; exact (has a ha).2
+  have conv : ∀ {ρ : List Tm} {as ps : List Tm}, All2 (fun e p => FlagEq (instB ρ p) e.synth) (as.map Ex.val) ps →
+      All2 (fun a p => FlagEq (instB ρ p) a) as ps := by
+    intro ρ as
+    induction as with
+    | nil => intro ps h; cases h; exact .nil
+    | cons a as ih => intro ps h; cases h with | cons h1 h2 => exact .cons h1 (ih h2)
+  refine ⟨⟨?_, ?_⟩, ?_⟩
+  · rintro ⟨ins, ret, h⟩
+    obtain ⟨_, ok⟩ := generic_call_synth_sound E sg fresh _ ins ret (fun a ha => (hin a ha).1) hout hcl h
+    exact ⟨ins, ok.len, ok.bounds, conv ok.fits⟩
+  · rintro ⟨ρ, hl, hb, hf⟩
+    obtain ⟨ins, h, _⟩ := synthCall_complete E hE sg fresh as ρ hin hout has hfresh hl hocc hf hb
+    exact ⟨ins, _, h⟩
+  · intro ρ hl hb hf
+    exact synthCall_complete E hE sg fresh as ρ hin hout has hfresh hl hocc hf hb
+
+/-- non-vacuity of `generic_call_iff_partial`: `pair : forall T U. (T, Option[U], T) -> U` on `(int, Option[bool], int)` -/
+example : NoLinear {} ∧ [2000, 2002].Nodup ∧
+    (∀ f ∈ [2000, 2002], ∃ p ∈ [Tm.atom (.bvar 0), .node (.opaque 3) [.targ (.atom (.bvar 1))], .atom (.bvar 0)],
+        f ∈ (instB ([2000, 2002].map Tm.var) p).vars) ∧
+    synthCall {} ⟨[.atom (.bvar 0), .node (.opaque 3) [.targ (.atom (.bvar 1))], .atom (.bvar 0)], .atom (.bvar 1),
+        [(true, true), (true, true)]⟩ [2000, 2002]
+      ([.atom (.num 2), .node (.opaque 3) [.targ (.node (.opaque 0) [])], .atom (.num 2)].map Ex.val)
+      = .accept [.atom (.num 2), .node (.opaque 0) []] (.node (.opaque 0) []) :=
+  ⟨noLinear_default, by simp, by simp [instB, instBList, Tm.vars, varsList], rfl⟩
+
+/-- non-vacuity: `first : forall T. (T, T) -> T` on the tuple literal `(x: int, y: int)` is accepted with `T := int`;
+    on `(x: int, y: bool)` it is rejected (the seeded `visit_Tuple` mutant accepted it) -/
+example : synthCall {} ⟨[.node .tuple [.targ (.atom (.bvar 0)), .targ (.atom (.bvar 0))]], .atom (.bvar 0), [(true, true)]⟩
+    [2000] [.tup [.val (.atom (.num 2)), .val (.atom (.num 2))]] = .accept [.atom (.num 2)] (.atom (.num 2)) := by rfl
+
+example : synthCall {} ⟨[.node .tuple [.targ (.atom (.bvar 0)), .targ (.atom (.bvar 0))]], .atom (.bvar 0), [(true, true)]⟩
+    [2000] [.tup [.val (.atom (.num 2)), .val (.node (.opaque 0) [])]] = .mismatch := by rfl
 
 /-! ### non-vacuity -/
 
